@@ -21,6 +21,8 @@ vars == <<pools, hist>>
 \* (the depth is part of the view: with several workers TLC does not visit states in strict breadth-first
 \*  order, and a depth bound on a hidden variable would make the explored set depend on scheduling)
 View == <<pools, Len(hist)>>
+\* for runs whose depth bound is not binding (the whole state space is explored): one visit per pool state
+ViewPools == pools
 
 Blk(k, i) == [k |-> k, c |-> i]           \* c = index in U (0 for blocks without certificate)
 PEMInputs ==
